@@ -254,6 +254,10 @@ def answer (st : DState) (line : String) : DState × String :=
   | "parse" :: rest =>
     let t := hexArg rest
     (st, Show.outcome t (Machine.parse st.table t))
+  | "parse-spec" :: rest =>
+    -- the parser model run on the FROZEN command table of the specification (not on the table read from the code)
+    let t := hexArg rest
+    (st, Show.outcome t (Machine.parse st.spec t))
   | "ser" :: rest =>
     let t := hexArg rest
     match Machine.parse st.table t with
